@@ -69,6 +69,25 @@ def pint(cv: dict) -> int:
 
 NONE = {"none": True}
 
+# binary-LLSD documents used as opaque leaf values: (bytes written as constants in the specification, Python value)
+LLSD_DOCS = [
+    (bytes([105, 0, 0, 0, 7]), 7),
+    (bytes([91, 0, 0, 0, 2, 105, 0, 0, 0, 1, 115, 0, 0, 0, 1, 97, 93]), [1, "a"]),
+    (bytes([33]), None),
+    (bytes([115, 0, 0, 0, 2, 104, 105]), "hi"),
+    (bytes([123, 0, 0, 0, 1, 107, 0, 0, 0, 1, 107, 49, 125]), {"k": True}),
+]
+
+
+def _llsd_same(a, b) -> bool:
+    if type(a) is not type(b):
+        return False
+    if isinstance(a, list):
+        return len(a) == len(b) and all(_llsd_same(x, y) for x, y in zip(a, b))
+    if isinstance(a, dict):
+        return list(a) == list(b) and all(_llsd_same(a[k], b[k]) for k in a)
+    return a == b
+
 
 def _key(x) -> str:
     return json.dumps(x, sort_keys=True, separators=(",", ":"))
@@ -164,6 +183,8 @@ def build(tree: dict):
         return c
     if k == "null":
         return se.Null
+    if k == "llsd":
+        return se.BinaryLLSD
     if k == "bytearray":
         return se.ByteArray(build(tree["p"]))
     if k == "bytesfixed":
@@ -289,6 +310,8 @@ def to_tree(obj) -> dict:
         return {"k": "uuid"}
     if _is(obj, se.Null):
         return {"k": "null"}
+    if _is(obj, se.BinaryLLSD):
+        return {"k": "llsd"}
     if _is(obj, se.EncodedTupleCoord):
         if isinstance(obj, type):
             raise Unreflectable("EncodedTupleCoord class without instance")
@@ -578,6 +601,11 @@ def canon(value, tree: Optional[dict] = None, pod: Optional[bool] = None, _frame
         return _unknown(value)
     if k == "null":
         return NONE if value is None else _unknown(value)
+    if k == "llsd":
+        for doc, pyv in LLSD_DOCS:
+            if _llsd_same(value, pyv):
+                return {"x": list(doc)}
+        return _unknown(value)
     if k in ("bytearray", "bytesfixed", "bytesgreedy", "bytesterm"):
         if isinstance(value, (bytes, bytearray, memoryview)):
             return {"b": list(bytes(value))}
@@ -715,6 +743,9 @@ def to_py(tree: dict, cv: dict, pod: bool = False, _frames: tuple = ()):
     try:
         if "none" in cv and k in ("null", "optprefix", "optflag", "ifpresent", "typedbytes"):
             return None
+        if k == "llsd":
+            import copy
+            return copy.deepcopy(next(pyv for doc, pyv in LLSD_DOCS if list(doc) == cv["x"]))
         if k == "int":
             return pint(cv)
         if k == "float":
